@@ -38,7 +38,7 @@ func (c14) Info() core.Info {
 			"Non-trivial: every mutant (one fault at one syntactic position). Distinct: the statement text.",
 		Assumptions: []string{
 			"only faults that violate a documented typing rule unambiguously are generated; no argument-type faults for functions (README declares most parameters `any`)",
-			"results of [..] indexing are dynamically typed and excluded",
+			"results of [..] indexing into JSON documents and into lists read from text are dynamically typed and excluded; elements of lists built from numbers (int_list, float_list, list of numbers) are numbers",
 			"operand-type error class = messages containing 'wrong type', 'Invalid operator', 'not boolean', 'not string', 'not number'; conversion, division, regexp and BETWEEN-order errors are not of that class",
 		},
 	}
@@ -53,6 +53,8 @@ func c14Good() []c14Filler {
 	return []c14Filler{
 		{"key = 'a'", 'B'}, {"is_int(value)", 'B'}, {"int(value) > 1", 'B'}, {"true", 'B'}, {"!(key ^= 'a')", 'B'}, {"key in ('a', 'b')", 'B'}, {"value between '1' and '3'", 'B'}, {"float(value) = 1.5", 'B'},
 		{"1", 'N'}, {"int(value)", 'N'}, {"strlen(key) + 1", 'N'}, {"2.5", 'N'}, {"float(value) * 2", 'N'}, {"len(split(value, ','))", 'N'},
+		// elements of lists built from numbers are numbers
+		{"list(1, 2)[0]", 'N'}, {"int_list(4, int(value))[1]", 'N'}, {"flist(0.5, float(value))[1] * 2", 'N'},
 		{"'a'", 'T'}, {"key", 'T'}, {"upper(value)", 'T'}, {"key + 'x'", 'T'}, {"str(int(value))", 'T'}, {"join('-', key, value)", 'T'},
 		{"split(value, ',')", 'L'}, {"list(1, 2)", 'L'},
 		{"json(value)", 'J'},
@@ -112,6 +114,10 @@ func c14FaultyAtoms() []c14Atom {
 		{"json(value)['a'][true] = 'x'", 'B', "Boolean as a field index"},
 		{"json(value)['a'][key = 'a'] = 'x'", 'B', "Boolean as a field index"},
 		{"json(value)['a'][list(1)] = 'x'", 'B', "list as a field index"},
+		{"list(1, 2)[0] = '1'", 'B', "= on a number element and text"},
+		{"int_list(1, 2)[0] + 'a'", 'N', "+ on a number element and text"},
+		{"'a' + flist(0.5)[0]", 'T', "+ on text and a number element"},
+		{"list(1.5, 2)[1] ^= 'a'", 'B', "^= on a number element"},
 		{"true in (true, false)", 'B', "IN on Booleans"},
 		{"is_int(value) in (true)", 'B', "IN on Booleans"},
 		{"(key = 'a') in (true, false)", 'B', "IN on Booleans"},
@@ -149,6 +155,10 @@ func c14ExprCtxs() []c14Ctx {
 		{"1 = 1 | {}", 'B', "NTLJ", true, 'B'},
 		{"{} and true", 'B', "NTLJ", true, 'B'},
 		{"false or {}", 'B', "NTLJ", true, 'B'},
+		// Booleans compare for equality with Booleans, whatever their form
+		{"{} = true", 'B', "NTLJ", true, 'B'},
+		{"false != {}", 'B', "NTLJ", true, 'B'},
+		{"{} = is_int(value)", 'B', "NTLJ", true, 'B'},
 		{"{} = 1", 'N', "TBLJ", true, 'B'},
 		{"1 < {}", 'N', "TBLJ", true, 'B'},
 		{"{} != 'a'", 'T', "NBLJ", true, 'B'},
@@ -208,12 +218,23 @@ func c14StmtCtxs() []c14Ctx {
 		{"select key as a, a + 'x' as b where {} != b", 'T', "NBLJ", false, 0},
 		{"select int(value) as n, n + 1 as m where m > {}", 'N', "TBLJ", false, 0},
 		{"select key as a, upper(a) as b, b + 'x' as c where c ^= {} order by c", 'T', "NBLJ", false, 0},
-		// `!` over the bare name of a select field: refused unless the field is Boolean
-		// (hole type Z: no filler counts as well typed here, only the faults are judged)
-		{"select {} as n where !n", 'Z', "NTLJ", false, 0},
-		{"select key, {} as n where key = 'a' & !n", 'Z', "NTLJ", false, 0},
-		{"select {} as n, !n as m where true", 'Z', "NTLJ", false, 0},
-		{"select {} as n where !(!n)", 'Z', "NTLJ", false, 0},
+		// fields used ahead of the fields they are defined through
+		{"select (b + {}) as s, a + 'y' as b, key as a where true", 'T', "NBLJ", false, 0},
+		{"select (m * {}) as k, n + 1 as m, int(value) as n where k > 4", 'N', "TBLJ", false, 0},
+		{"select upper(b) as s, a + 'y' as b, key as a where s = {}", 'T', "NBLJ", false, 0},
+		{"select c ^= {} as s, b + 'z' as c, a + 'y' as b, key as a where s", 'T', "NBLJ", false, 0},
+		// a field that is just the name of another field has that field's type
+		{"select {} as a, a as b where true order by b", 0, "LJ", false, 0},
+		{"select {} as a, a as b, b as c where true order by c desc, a", 0, "LJ", false, 0},
+		{"select {} as a, a as g, count(1) where true group by a, g", 0, "LJ", false, 0},
+		// the bare name of a select field as the whole filter and under `!`: it
+		// stands for the field, which must be Boolean
+		{"select {} as n where !n", 'B', "NTLJ", false, 0},
+		{"select key, {} as n where key = 'a' & !n", 'B', "NTLJ", false, 0},
+		{"select {} as n, !n as m where true", 'B', "NTLJ", false, 0},
+		{"select {} as n where !(!n)", 'B', "NTLJ", false, 0},
+		{"select key, {} as n where n", 'B', "NTLJ", false, 0},
+		{"select !n as m, {} as n where m", 'B', "NTLJ", false, 0},
 		{"put ({}, 'v')", 0, "BLJ", false, 0},
 		{"put ('k', {})", 0, "BLJ", false, 0},
 		{"put ('a', 'b'), ('k', {})", 0, "BLJ", false, 0},
